@@ -1228,6 +1228,14 @@ orc_compiler_global_reg_alloc (OrcCompiler *compiler)
         }
         if (var->need_offset_reg) {
           var->ptr_offset = orc_compiler_allocate_register (compiler, FALSE);
+          if (var->ptr_offset == 0 && !compiler->error) {
+            /* a pointer can live in the executor instead of a register
+             * (allow_gp_on_stack), the running offset of a resampling load
+             * cannot: the rules use it as a register operand */
+            orc_compiler_error (compiler,
+                "register overflow for the offset register of %s", var->name);
+            compiler->result = ORC_COMPILE_RESULT_UNKNOWN_COMPILE;
+          }
         }
         break;
       case ORC_VAR_TYPE_DEST:
